@@ -1082,3 +1082,7 @@ impl LocalPeerService {
         }
     }
 }
+
+#[cfg(discret_verif)]
+#[path = "/verif/hooks/peer_inbound_service.rs"]
+pub(crate) mod verif_hook;
